@@ -61,6 +61,10 @@ func init() {
 		"		if o.opts.ignoreHostLeaseholder && tx.Leaseholder == o.db.config.Cluster.HostKey() {", "		if tx.Leaseholder == o.db.config.Cluster.HostKey() {", "C13.R3.wrapper")
 	mut("C13", "wrapper filter inverted", kvgo,
 		"		if o.opts.ignoreHostLeaseholder && tx.Leaseholder == o.db.config.Cluster.HostKey() {", "		if o.opts.ignoreHostLeaseholder && tx.Leaseholder != o.db.config.Cluster.HostKey() {", "C13.R3.wrapper")
+	mut("C13", "wrapper never hides host-led requests", kvgo,
+		"		if o.opts.ignoreHostLeaseholder && tx.Leaseholder == o.db.config.Cluster.HostKey() {\n			return\n		}\n", "", "C13.R3.wrapper")
+	mut("C13", "wrapper hides every request from IgnoreHostLeaseholder subscribers", kvgo,
+		"		if o.opts.ignoreHostLeaseholder && tx.Leaseholder == o.db.config.Cluster.HostKey() {", "		if o.opts.ignoreHostLeaseholder || tx.Leaseholder == o.db.config.Cluster.HostKey() {", "C13.R3.wrapper")
 
 	// ---------------- C11
 	const plgo = "aspen/internal/cluster/pledge/pledge.go"
@@ -102,6 +106,12 @@ func init() {
 		"		if ok && n.Heartbeat.OlderThan(dig.Heartbeat) {\n			ack.Nodes[dig.Key] = n", "		if ok && dig.Heartbeat.OlderThan(n.Heartbeat) {\n			ack.Nodes[dig.Key] = n", "C12.R2.direction")
 	mut("C12", "sync requests records it is ahead on", gogo,
 		"		if !ok || n.Heartbeat.YoungerThan(dig.Heartbeat) {", "		if !ok || n.Heartbeat.OlderThan(dig.Heartbeat) {", "C12.R2.direction")
+	mut("C12", "sync hands back the zero record of a member it does not know", gogo,
+		"		if ok && n.Heartbeat.OlderThan(dig.Heartbeat) {\n			ack.Nodes[dig.Key] = n", "		if !ok || n.Heartbeat.OlderThan(dig.Heartbeat) {\n			ack.Nodes[dig.Key] = n", "C12.R2.direction")
+	mut("C12", "sync volunteers the members the initiator already sent a digest for", gogo,
+		"		if _, ok := sync.Digests[n.Key]; !ok {", "		if _, ok := sync.Digests[n.Key]; ok {", "C12.R2.direction")
+	mut("C12", "ack answers for members it does not know", gogo,
+		"		if n, ok := snap.Nodes[dig.Key]; ok && n.Heartbeat.OlderThan(dig.Heartbeat) {", "		if n, ok := snap.Nodes[dig.Key]; !ok || n.Heartbeat.OlderThan(dig.Heartbeat) {", "C12.R2.direction")
 	mut("C12", "ack returns stale records", gogo,
 		"		if n, ok := snap.Nodes[dig.Key]; ok && n.Heartbeat.OlderThan(dig.Heartbeat) {", "		if n, ok := snap.Nodes[dig.Key]; ok && !n.Heartbeat.OlderThan(dig.Heartbeat) {", "C12.R2.direction")
 	mut("C12", "ack skips the merge when nothing was requested", gogo,
